@@ -43,6 +43,7 @@ SHAPES = {
     'e2_bidir': ({1: [2], 2: [1]}, 'edges'),
     'e2_fan': ({1: [2, 3], 2: [], 3: []}, 'edges'),
     'e1_selfloop': ({1: [1, 2], 2: []}, 'edges'),
+    'e3_fan': ({1: [2, 3, 4], 2: [], 3: [], 4: []}, 'edges'),
 }
 
 
@@ -107,8 +108,8 @@ def concrete_oracle(kind, graph, coords, loc, r, max_elmt, res):
 
 
 LAYOUTS = {   # concrete coordinates (y, x) for nodes 1..3; the query point and the radius stay symbolic
-    'unit': {1: (0.0, 0.0), 2: (0.0, 1.0), 3: (1.0, 0.5)},
-    'long': {1: (0.0, -10.0), 2: (0.0, 10.0), 3: (3.0, 0.0)},
+    'unit': {1: (0.0, 0.0), 2: (0.0, 1.0), 3: (1.0, 0.5), 4: (-1.0, 1.0)},
+    'long': {1: (0.0, -10.0), 2: (0.0, 10.0), 3: (3.0, 0.0), 4: (-4.0, 5.0)},
     'diag': {1: (0.5, -1.0), 2: (2.0, 3.0), 3: (-1.0, 1.0)},
     'zero': {1: (1.0, 1.0), 2: (1.0, 1.0), 3: (1.0, 2.0)},
     'tiny': {1: (50.87, 4.7), 2: (50.87, 4.70008), 3: (50.87003, 4.7)},
@@ -226,10 +227,25 @@ def run_instance(inst):
                                    z3.Implies(z3.And(u >= 0, u <= 1), z3.Or(d2(loc, w) >= r2 * z3.Q(3, 4), d2(loc, w) >= r2 - z3.Q(1, 100)))))
         else:
             cl.append(('at_most_max_elmt', z3.BoolVal(len(res) <= max_elmt)))
+            u2 = z3.Real('u2!w')
             for key, q in elems:
-                if key not in got and kind == 'nodes':
+                if key in got:
+                    continue
+                full = z3.BoolVal(len(res) == max_elmt)
+                if kind == 'nodes':
                     # an omitted node is outside the radius or not nearer than every returned one (result is full)
-                    cl.append((f'omitted_{key}_is_farther', z3.Or(q >= r2, z3.And(z3.BoolVal(len(res) == max_elmt), *[q >= radic[k] for k in got]))))
+                    cl.append((f'omitted_{key}_is_farther', z3.Or(q >= r2, z3.And(full, *[q >= radic[k] for k in got]))))
+                else:
+                    # an omitted edge: no point of it is (clearly) nearer than every returned edge while the result is full,
+                    # or no point of it is (clearly) within the radius   [forall u: A(u)] or [forall u2: B(u2)]
+                    a, b = C[key[0]], C[key[1]]
+                    wu, wu2 = at(a, b, u), at(a, b, u2)
+                    slack = BAND + z3.Q(4, 10 ** 8) * (1 + r2)
+                    A_ = z3.And(full, z3.Implies(z3.And(u >= 0, u <= 1), z3.And(*[d2(loc, wu) >= radic[k] - slack for k in got])))
+                    B_ = z3.Implies(z3.And(u2 >= 0, u2 <= 1), d2(loc, wu2) >= r2 - slack)
+                    rA = z3.And(full, z3.Implies(z3.And(u >= 0, u <= 1), z3.And(*[d2(loc, wu) >= radic[k] * z3.Q(3, 4) for k in got])))
+                    rB = z3.Implies(z3.And(u2 >= 0, u2 <= 1), z3.Or(d2(loc, wu2) >= r2 * z3.Q(3, 4), d2(loc, wu2) >= r2 - z3.Q(1, 100)))
+                    cl.append((f'omitted_{key}_is_not_among_the_nearest', z3.Or(A_, B_), z3.Or(rA, rB)))
         ds = [radic[(row[1],) if kind == 'nodes' else (row[1], row[3])] for row in res]
         cl.append(('sorted_by_distance', z3.And(*[a <= b for a, b in zip(ds, ds[1:])]) if len(ds) > 1 else z3.BoolVal(True)))
         return cl
@@ -336,7 +352,7 @@ def instances(tier):
     out = [('n1', None, None), ('n2', None, None), ('n2', 1, None)]
     for lay in LAYOUTS:
         out += [('e1', None, lay), ('e2_bidir', None, lay)]
-    out += [('e2_fan', None, 'unit'), ('e2_fan', 1, 'unit'), ('e1_selfloop', None, 'long'), ('e2_fan', 1, 'metres1e7')]
+    out += [('e2_fan', None, 'unit'), ('e2_fan', 1, 'unit'), ('e3_fan', 2, 'unit'), ('e3_fan', 2, 'long'), ('e1_selfloop', None, 'long'), ('e2_fan', 1, 'metres1e7')]
     out += [('n1', None, None, 'sqlite'), ('n2', None, None, 'sqlite'), ('n2', 1, 'metres1e7', 'sqlite'), ('n2', None, 'metres1e7', 'sqlite'), ('n3', None, 'unit', 'sqlite'), ('e1', None, 'unit', 'sqlite'),
             ('e1', None, 'long', 'sqlite'), ('e2_bidir', None, 'metres1e7', 'sqlite'), ('e2_fan', None, 'diag', 'sqlite')]
     if tier == 'thorough':
